@@ -33,7 +33,9 @@ RepAlphabet(s) ==
             Msg(99, TRUE, s.q, 0, TRUE, FALSE, -1),
             Msg(IF s.att > 1 THEN s.att - 1 ELSE 98, TRUE, s.q, 0, TRUE, FALSE, -1),
             Msg(s.att, TRUE, NoQ, 2, FALSE, FALSE, -1),
-            Msg(s.att, FALSE, s.q, 0, FALSE, FALSE, -1)}}
+            Msg(s.att, FALSE, s.q, 0, FALSE, FALSE, -1),
+            Msg(s.att, TRUE, 200 + s.q, 0, TRUE, FALSE, -1),    \* another class
+            Msg(s.att, TRUE, 300 + s.q, 0, TRUE, FALSE, -1)}}   \* another letter case: accepted
   \cup {[kind |-> "short", f |-> NoDgram.f], [kind |-> "ioerr", f |-> NoDgram.f]}
 
 OpsOf(s) ==      (IF s.ph = "idle" THEN {DMkOp("submit", 1, NoDgram)} ELSE {})
